@@ -35,7 +35,7 @@ man = {
          "kind_free_text": "operation histories from several simulated clients over the real kvdb wrappers on a recording simulated disk; crash = every prefix of the durable log; reference KV/pool/route/refcount/buffer models"},
         {"name": "E3-tasks", "path": "tasksim/", "serves_properties": ["C15", "C16", "C17", "C18", "C30"],
          "kind_free_text": "real goroutine/timer components inside testing/synctest bubbles (go1.26.8 fake clock + quiescence), stimuli pre-drawn with unique fake timestamps"},
-        {"name": "E4-interleave", "path": "interleave/", "serves_properties": ["C28", "C29"],
+        {"name": "E4-interleave", "path": "interleave/", "serves_properties": ["C28", "C29", "C26"],
          "kind_free_text": "scratch-copy rewrite of sync/time primitives to a controlled scheduler; one task runs at a time, schedule drawn from the seed; -race with happens-before-transparent hand-off; porcupine linearizability"},
     ],
     "checks": [],
@@ -44,6 +44,8 @@ man = {
 }
 for pid in sorted(checks):
     c = checks[pid]
+    if "reports_as" in c:  # a stage of another check, run by that check's command
+        continue
     t = TEXT.get(pid, {})
     man["checks"].append({
         "property_id": pid,
@@ -56,7 +58,7 @@ for pid in sorted(checks):
         "level_note": t.get("note", ""),
         "technique": t.get("technique", "deterministic simulation with fault injection: seeded search over schedules and fault sequences, reference-model oracle, replayable minimised trace"),
     })
-claimed = set(checks)
+claimed = set(k for k in checks if "reports_as" not in checks[k])
 props = [json.loads(l)["id"] for l in open(os.path.join(V, "properties.jsonl"))]
 for pid in props:
     if pid not in claimed:
